@@ -165,7 +165,9 @@ func (r grow) toMapMode(agg bool) map[string]any {
 	m := map[string]any{"id": r.id}
 	for i, v := range r.vals {
 		if x, ok := r.raw[i]; ok {
-			m[colName(i)] = x
+			if _, omit := x.(struct{}); !omit { // struct{}{} = leave the field out of the row
+				m[colName(i)] = x
+			}
 		} else if x, ok := v.goValueMode(agg); ok {
 			m[colName(i)] = x
 		}
@@ -202,7 +204,7 @@ func genVal(rng *RNG, colKind int) gval {
 	}
 	switch colKind {
 	case 1:
-		ints := []int64{0, 1, -1, 2, 10, 12, 100000000, -7, 1 << 40, 1<<53 + 1}
+		ints := []int64{0, 1, -1, 2, 10, 12, 100000000, -7, 1 << 40, 1 << 53, 1<<53 + 1, 1<<53 + 2, 1 << 61, 1<<61 + 1, 1<<61 + 2, -(1 << 53), -(1<<53 + 1)}
 		return gval{kind: 'i', i: ints[rng.Intn(len(ints))], goTy: rng.Intn(4)}
 	case 2:
 		if rng.Bool() {
@@ -797,6 +799,45 @@ func fnKeyCase(rng *RNG, o *Out) error {
 	return nil
 }
 
+// fnKeyCase2: TWO function-valued keys, the first of which fails to evaluate on some rows
+// (sqrt of a NULL / missing argument): GROUP BY sqrt(a), upper(k1). Every key must still be materialised.
+func fnKeyCase2(rng *RNG, o *Out) error {
+	n := 1 + rng.Intn(3)
+	raws := []string{"p", "q", "P", "r"}
+	l := 2 + rng.Intn(5*n)
+	rows := make([]grow, l)
+	for i := range rows {
+		raw := raws[rng.Intn(len(raws))]
+		var first gval
+		rawm := map[int]any{1: raw}
+		switch rng.Intn(4) {
+		case 0:
+			first = gval{kind: 'n'}
+			rawm[0] = nil
+		case 1:
+			first = gval{kind: 'n'} // argument missing altogether
+			rawm[0] = struct{}{}
+		case 2:
+			first = gval{kind: 'i', i: 2}
+			rawm[0] = 4
+		default:
+			first = gval{kind: 'i', i: 3}
+			rawm[0] = 9
+		}
+		rows[i] = grow{id: int64(i + 1), vals: []gval{first, {kind: 's', s: strings.ToUpper(raw)}}, raw: rawm}
+	}
+	sql := fmt.Sprintf("SELECT sqrt(k1) AS s1, upper(k2) AS u2, count(*) AS c, collect(id) AS ids, first_value(id) AS fi, last_value(id) AS la FROM stream GROUP BY sqrt(k1), upper(k2), CountingWindow(%d)", n)
+	sent := sentinelRows(n, 2)
+	res, err := runSQL(sql, rows, sent, 2, sawSentinel, 3*time.Second, "s1", "u2")
+	if err != nil {
+		return err
+	}
+	res = dropSentinel(res)
+	o.Line("C04 T sql-fnkey2 %d 2 %d %s # %s", n, len(rows), rowsTok(rows), resultsTok(res, true))
+	o.Count("sql two function-valued keys, first failing on NULL")
+	return nil
+}
+
 func genCountingRows(rng *RNG) (n, ncols int, rows []grow) {
 	n = []int{1, 2, 3, 7}[rng.Intn(4)]
 	ncols = rng.Intn(4)
@@ -895,6 +936,9 @@ func runC04(tier string, seed uint64, o *Out) error {
 	}
 	for i := 0; i < nGlb/3; i++ {
 		if err := fnKeyCase(rng, o); err != nil {
+			return err
+		}
+		if err := fnKeyCase2(rng, o); err != nil {
 			return err
 		}
 	}
